@@ -481,6 +481,7 @@ func c24Authz(code int16) bool {
 }
 
 type c24Step struct {
+	created   []string        // topics that exist after the request and did not before
 	known     map[string]bool // topics whose ID the store knew before the request (ID-addressed Fetch)
 	req       c24Req
 	principal string
@@ -521,6 +522,15 @@ func c24Run(t *testing.T, c c24Case) ([]c24Step, string, string, map[string]bool
 		cid := "setup"
 		if _, err := h.Handle(ctx, &protocol.RequestHeader{APIKey: q.Key(), APIVersion: ver, CorrelationID: 1, ClientID: &cid}, q); err != nil {
 			t.Fatalf("setup produce: %v", err)
+		}
+	}
+	for _, g := range []string{"g1", "g2"} {
+		cid := "setup"
+		for _, k := range []string{"JoinGroup", "OffsetCommit"} {
+			q, ver := c24Build(c24Req{Kind: k, Names: []string{g}}, nil)
+			if _, err := h.Handle(ctx, &protocol.RequestHeader{APIKey: q.Key(), APIVersion: ver, CorrelationID: 2, ClientID: &cid}, q); err != nil {
+				t.Fatalf("setup %s %s: %v", k, g, err)
+			}
 		}
 	}
 	h.authorizer = saved
@@ -615,7 +625,44 @@ func c24Run(t *testing.T, c c24Case) ([]c24Step, string, string, map[string]bool
 		if nDenied > 0 && nDenied < len(items) {
 			tags["mixed:"+r.Kind] = true
 		}
-		what := fmt.Sprintf("request %d %s by %q (names %q res %v)", i, r.Kind, principal, r.Names, r.Res)
+		what := fmt.Sprintf("request %d %s by %q (names %q res %v by_id %v)", i, r.Kind, principal, r.Names, r.Res, r.ByID)
+		// ---- "creates no topic": a topic that appears must be one this principal may create:
+		// produce permission on it (auto-creation, whichever request triggered it) or cluster admin
+		// (CreateTopics). Fetch permission alone is not a permission to create.
+		for k := range after {
+			if _, had := before[k]; !had && strings.HasPrefix(k, "topic|") && strings.HasSuffix(k, "|meta") {
+				n := strings.TrimSuffix(strings.TrimPrefix(k, "topic|"), "|meta")
+				st.created = append(st.created, n)
+				mayProduce := h.authorizer.Allows(principal, acl.ActionProduce, acl.ResourceTopic, n)
+				isAdmin := r.Kind == "CreateTopics" && h.authorizer.Allows(principal, acl.ActionAdmin, acl.ResourceCluster, "cluster")
+				if !mayProduce && !isAdmin {
+					setFail(r.Kind+"-created-topic-without-create-permission", fmt.Sprintf("%s: topic %q was created although the principal may neither produce to it nor administer the cluster", what, n))
+				}
+			}
+		}
+		sort.Strings(st.created)
+		// ---- mixed per-item requests: the state delta must come from PERMITTED items only
+		switch r.Kind {
+		case "Produce", "Fetch", "Metadata", "DescribeGroups", "DeleteGroups", "DescribeConfigs":
+			isGroup := c24IsGroupKind(r.Kind)
+			owned := func(k string) bool {
+				for _, it := range items {
+					if denied[it] || (it.typ != 0 && it.typ != 2) {
+						continue
+					}
+					if isGroup && strings.HasPrefix(k, "group|"+it.name+"|") {
+						return true
+					}
+					if !isGroup && (strings.HasPrefix(k, "topic|"+it.name+"|") || (strings.HasPrefix(k, "s3|") && strings.Contains(k, "/"+it.name+"/"))) {
+						return true
+					}
+				}
+				return false
+			}
+			if d := c24Diff(before, after, func(k string) bool { return !owned(k) }); d != "" && nDenied > 0 {
+				setFail(r.Kind+"-delta-outside-permitted-items", fmt.Sprintf("%s: the request carries denied items and the state changed outside its permitted items: %s", what, d))
+			}
+		}
 		if allDenied && st.changed {
 			setFail(r.Kind+"-denied-request-changed-state", fmt.Sprintf("%s: every item lacks its permission but the state changed: %s", what, c24Diff(before, after, func(string) bool { return true })))
 		}
@@ -739,6 +786,66 @@ func c24GenReq(r *vRand) c24Req {
 	return q
 }
 
+// c24MakeMixed rewrites a per-item request so that it carries at least one permitted and one
+// denied item for its principal, when the ACL makes that possible.
+func c24MakeMixed(r *vRand, auth *acl.Authorizer, q *c24Req) {
+	var act acl.Action
+	var res acl.Resource
+	var pool []string
+	switch q.Kind {
+	case "Produce":
+		act, res, pool = acl.ActionProduce, acl.ResourceTopic, []string{"orders", "t1", "sneaky", "sneaky2"}
+	case "Fetch":
+		act, res, pool = acl.ActionFetch, acl.ResourceTopic, []string{"orders", "t1", "sneaky", "sneaky2"}
+	case "Metadata":
+		if q.ByID {
+			return
+		}
+		act, res, pool = acl.ActionProduce, acl.ResourceTopic, []string{"sneaky", "sneaky2", "orders", "t1"}
+	case "DescribeGroups":
+		act, res, pool = acl.ActionGroupRead, acl.ResourceGroup, []string{"g1", "g2", "g3"}
+	case "DeleteGroups":
+		act, res, pool = acl.ActionGroupAdmin, acl.ResourceGroup, []string{"g1", "g2", "g3"}
+	case "DescribeConfigs":
+		act, res, pool = acl.ActionFetch, acl.ResourceTopic, []string{"orders", "t1", "sneaky"}
+	default:
+		return
+	}
+	var yes, no []string
+	for _, who := range []string{q.Principal, "p1", "p2", "p3"} { // prefer the drawn principal, else one that CAN be mixed
+		yes, no = nil, nil
+		for _, n := range pool {
+			if auth.Allows(who, act, res, n) {
+				yes = append(yes, n)
+			} else {
+				no = append(no, n)
+			}
+		}
+		if len(yes) > 0 && len(no) > 0 {
+			q.Principal = who
+			break
+		}
+	}
+	if len(yes) == 0 || len(no) == 0 {
+		return
+	}
+	names := []string{yes[r.Intn(len(yes))], no[r.Intn(len(no))]}
+	if r.Bool() {
+		names[0], names[1] = names[1], names[0]
+	}
+	if r.Chance(40) {
+		names = append(names, pool[r.Intn(len(pool))])
+	}
+	if q.Kind == "DescribeConfigs" {
+		q.Res = nil
+		for _, n := range names {
+			q.Res = append(q.Res, c24Res{2, n})
+		}
+		return
+	}
+	q.Names = names
+}
+
 func c24Gen(r *vRand) c24Case {
 	c := c24Case{Kind: "dispatch", Default: []string{"deny", "deny", "deny", "allow", ""}[r.Intn(5)], AutoCreate: r.Chance(65), AdminAPIs: !r.Chance(15)}
 	for _, n := range []string{"p1", "p2", "p3"} {
@@ -767,9 +874,27 @@ func c24Gen(r *vRand) c24Case {
 	if c.Principals == nil {
 		c.Principals = []c24Principal{}
 	}
+	// the generator knows the ACL: half of the list-shaped requests are made MIXED on purpose
+	// (>= 1 item the principal is permitted and >= 1 it is not)
+	cfg := acl.Config{Enabled: true, DefaultPolicy: c.Default}
+	for _, p := range c.Principals {
+		pr := acl.PrincipalRules{Name: p.Name}
+		for _, x := range p.Allow {
+			pr.Allow = append(pr.Allow, acl.Rule{Action: acl.Action(x.A), Resource: acl.Resource(x.R), Name: x.N})
+		}
+		for _, x := range p.Deny {
+			pr.Deny = append(pr.Deny, acl.Rule{Action: acl.Action(x.A), Resource: acl.Resource(x.R), Name: x.N})
+		}
+		cfg.Principals = append(cfg.Principals, pr)
+	}
+	auth := acl.NewAuthorizer(cfg)
 	n := r.Range(4, 14)
 	for i := 0; i < n; i++ {
-		c.Reqs = append(c.Reqs, c24GenReq(r))
+		q := c24GenReq(r)
+		if r.Chance(70) {
+			c24MakeMixed(r, auth, &q)
+		}
+		c.Reqs = append(c.Reqs, q)
 	}
 	return c
 }
@@ -837,8 +962,8 @@ func c24Coq(c c24Case, st c24Step) string {
 	for i, o := range st.obs {
 		obs[i] = fmt.Sprintf("((%d, %s), %s)", o.item.typ, cqStr(o.item.name), cqZ(int64(o.code)))
 	}
-	return fmt.Sprintf("mkD (mkConfig true %s %s) %s %s %s %s %s %s %s", cqStr(c.Default), cqList(es), cqStr(st.principal),
-		cqBool(c.AutoCreate), cqBool(c.AdminAPIs), c24Strs(st.existed), c24CoqReq(st.req, st.known), cqList(obs), cqBool(st.changed))
+	return fmt.Sprintf("mkD (mkConfig true %s %s) %s %s %s %s %s %s %s %s", cqStr(c.Default), cqList(es), cqStr(st.principal),
+		cqBool(c.AutoCreate), cqBool(c.AdminAPIs), c24Strs(st.existed), c24CoqReq(st.req, st.known), cqList(obs), cqBool(st.changed), c24Strs(st.created))
 }
 
 func TestVerifC24(t *testing.T) {
@@ -917,11 +1042,19 @@ func TestVerifC24(t *testing.T) {
 			c24Case{Default: "allow", AutoCreate: false, AdminAPIs: true, Principals: []c24Principal{{Name: "p2", Allow: []c24Rule{}, Deny: []c24Rule{{"*", "topic", "t1"}}}},
 				Reqs: []c24Req{{Kind: "Fetch", Principal: "p2", Names: []string{"t1"}, ByID: true}, {Kind: "Fetch", Principal: "p2", Names: []string{"sneaky", "orders"}, ByID: true}, {Kind: "Produce", Principal: "p2", Names: []string{"t1", "orders"}, Acks: -1}}},
 		)
+		corpus = append(corpus,
+			// a DeleteGroups mixing a group the principal administers with one it does not: only the former may go
+			c24Case{Default: "deny", AutoCreate: true, AdminAPIs: true, Principals: []c24Principal{{Name: "p1", Allow: []c24Rule{{"group_admin", "group", "g1"}, {"group_read", "group", "g1"}}, Deny: []c24Rule{}}},
+				Reqs: []c24Req{{Kind: "DeleteGroups", Principal: "p1", Names: []string{"g1", "g2"}}, {Kind: "DescribeGroups", Principal: "p1", Names: []string{"g2", "g1"}}}},
+			// fetch permission is not a permission to create: Fetch / ListOffsets of a missing topic
+			c24Case{Default: "deny", AutoCreate: true, AdminAPIs: true, Principals: []c24Principal{{Name: "p1", Allow: []c24Rule{{"fetch", "topic", "*"}}, Deny: []c24Rule{}}},
+				Reqs: []c24Req{{Kind: "Fetch", Principal: "p1", Names: []string{"sneaky"}}, {Kind: "ListOffsets", Principal: "p1", Names: []string{"sneaky2"}, Ts: -2}, {Kind: "Fetch", Principal: "p1", Names: []string{"orders", "sneaky"}}}},
+		)
 		for _, c := range corpus {
 			runOne(c)
 		}
 		r := vNewRand(vSeed())
-		n := vN(60, 700)
+		n := vN(100, 900)
 		for i := 0; i < n; i++ {
 			runOne(c24Gen(r.Fork()))
 		}
